@@ -68,7 +68,12 @@ func c19Interleave(r *engine.Run, fail func(engine.Failure), outcomes *engine.Co
 	var cases []c19iCase
 	for _, base := range bases {
 		l := c19Replay(base)
-		ops := c19Ops(l)
+		var ops []c19Op
+		for _, o := range c19Ops(l) {
+			if o.Kind != "AdoptRenamedFile" { // a restart of the service, not a client call
+				ops = append(ops, o)
+			}
+		}
 		c19Close(l)
 		for _, a := range ops {
 			for _, b := range ops {
